@@ -122,6 +122,142 @@ def draw_programs(rng, n_single, n_sweep):
     return progs
 
 
+# ---------- floating-point family ----------
+FCT = {"float": "float", "double": "double", "int": "int", "uchar": "unsigned char", "llong": "long long"}
+FBIN = {"add": "+", "sub": "-", "mul": "*", "div": "/", "eq": "==", "ne": "!=", "lt": "<", "le": "<=", "gt": ">", "ge": ">=", "land": "&&", "lor": "||"}
+FARITH = ["add", "sub", "mul", "div"]
+FPROGS = []
+F32_SPECIAL = [0x00000000, 0x80000000, 0x00000001, 0x80000001, 0x007fffff, 0x00800000, 0x3f800000, 0xbf800000, 0x3fc00000, 0x40000000,
+               0x4b7fffff, 0x7f7fffff, 0xff7fffff, 0x7f800000, 0xff800000, 0x7fc00000, 0xffc00000, 0x7fc00001]
+F64_SPECIAL = [0x0000000000000000, 0x8000000000000000, 0x0000000000000001, 0x8000000000000001, 0x000fffffffffffff, 0x0010000000000000,
+               0x3ff0000000000000, 0xbff0000000000000, 0x3ff8000000000000, 0x4000000000000000, 0x416fffffe0000000, 0x7fefffffffffffff,
+               0xffefffffffffffff, 0x7ff0000000000000, 0xfff0000000000000, 0x7ff8000000000000, 0xfff8000000000000, 0x7ff8000000000001,
+               0x3810000000000000, 0x36a0000000000000, 0x47efffffe0000000]   # last three: float's min normal, min denormal, max as doubles
+
+
+def fdraw_programs(rng, per_combo):
+    progs = []
+    fk = ["float", "double"]
+    allk = list(FCT)
+
+    def pair():
+        while True:
+            ka, kb = rng.choice(allk), rng.choice(allk)
+            if ka in fk or kb in fk:
+                return ka, kb
+    for _ in range(per_combo):
+        for op in FBIN:
+            for wa, wb in COMBOS:
+                ka, kb = pair()
+                if op in ("land", "lor"):      # the right operand of && / || must be integral (static_assert); a floating left operand compiles
+                    ka, kb = rng.choice(fk), rng.choice(["int", "uchar", "llong"])
+                progs.append(dict(form="bin", op=op, wa=wa, ka=ka, wb=wb, kb=kb))
+    for op in FARITH:
+        for wb in ("T", "P", "V"):
+            ka = rng.choice(fk)
+            kb = rng.choice(allk if ka == "double" else ["float", "int", "uchar", "llong"])   # tainted target: decltype(ka op kb) must be ka
+            progs.append(dict(form="cmpd", op=op, wa="T", ka=ka, wb=wb, kb=kb))
+            progs.append(dict(form="cmpd", op=op, wa="V", ka=rng.choice(fk), wb=wb, kb=rng.choice(allk)))
+    for op in ("preinc", "predec", "postinc", "postdec"):
+        for ka in fk:
+            progs.append(dict(form="incdec", op=op, wa="T", ka=ka, wb="P", kb="int"))
+            if op.startswith("pre"):
+                progs.append(dict(form="incdec", op=op, wa="V", ka=ka, wb="P", kb="int"))
+    for ka in fk:
+        for wa in ("T", "V"):
+            progs.append(dict(form="un", op="neg", wa=wa, ka=ka, wb="P", kb="int"))
+    return progs
+
+
+def foperand(w, k, name, init):
+    if w == "P":
+        return "%s %s = %s;" % (FCT[k], name, init), name
+    if w == "T":
+        return "rlbox::tainted<%s, Sbx> %s = %s;" % (FCT[k], name, init), name
+    return "auto c_%s = cell<%s>(%d); *c_%s = %s; auto& %s = *c_%s;" % (name, FCT[k], 0 if name == "xa" else 1, name, init, name, name), name
+
+
+def fbody(p):
+    ka, kb = p["ka"], p["kb"]
+    da, xa = foperand(p["wa"], ka, "xa", "a0")
+    db, xb = foperand(p["wb"], kb, "xb", "b0")
+    f = p["form"]
+    if f == "bin":
+        o = FBIN[p["op"]]
+        return ("auto pr = a0 %s b0;" % o, "fres(pr)", "%s %s auto wr = unwrap_res(xa %s xb);" % (da, db, o), "fres(wr)")
+    if f == "cmpd":
+        o = FBIN[p["op"]]
+        return ("%s pa = a0; pa %s= b0;" % (FCT[ka], o), "fres(pa)", "%s %s xa %s= xb;" % (da, db, o), "fres(unwrap_res(xa))")
+    if f == "incdec":
+        pre = p["op"].startswith("pre")
+        o = "++" if p["op"].endswith("inc") else "--"
+        e_w = "%sxa" % o if pre else "xa%s" % o
+        e_p = "%spa" % o if pre else "pa%s" % o
+        return ("%s pa = a0; auto pr = %s;" % (FCT[ka], e_p), 'fres(pr) + ":" + fres(pa)',
+                "%s auto wr = unwrap_res(%s);" % (da, e_w), 'fres(wr) + ":" + fres(unwrap_res(xa))')
+    if f == "un":
+        o = "-" if p["op"] == "neg" else "!"
+        return ("auto pr = %sa0;" % o, "fres(pr)", "%s auto wr = unwrap_res(%sxa);" % (da, o), "fres(wr)")
+    raise ValueError(f)
+
+
+def femit(progs):
+    out = ['// generated by harness/props/c16.py (floating-point family) — do not edit', '#include "ops_common.hpp"']
+    for i, p in enumerate(progs):
+        ka, kb = FCT[p["ka"]], FCT[p["kb"]]
+        ps, pe, ws, we = fbody(p)
+        out.append("""static std::string prog_%d(const toks_t& v) {
+  %s a0 = parse_num<%s>(v.at(0)); %s b0 = parse_num<%s>(v.at(1)); (void)b0;
+  std::string pls, wls;
+  { %s pls = %s; }
+  try { %s wls = %s; }
+  catch (const std::runtime_error& e) { if (std::strncmp(e.what(), "HARNESS", 7) == 0) throw; wls = "ABORT"; }
+  return "W:" + wls + " P:" + pls;
+}""" % (i, ka, ka, kb, kb, ps, pe, ws, we))
+    out.append("static prog_fn g_progs[] = {%s};" % ", ".join("prog_%d" % i for i in range(len(progs))))
+    out.append("int main(int argc, char** argv) { return ops_main(argc, argv, g_progs, %d); }" % len(progs))
+    return "\n".join(out) + "\n"
+
+
+def fvals(k, rng, n):
+    if k == "float":
+        pool = F32_SPECIAL + [rng.randrange(0, 1 << 32) for _ in range(6)]
+        pool = [v for v in pool if not ((v & 0x7f800000) == 0x7f800000 and (v & 0x007fffff) and not (v & 0x00400000))]   # quiet NaNs only
+    elif k == "double":
+        pool = F64_SPECIAL + [rng.randrange(0, 1 << 64) for _ in range(6)]
+        pool = [v for v in pool if not ((v >> 52) & 0x7ff == 0x7ff and (v & ((1 << 52) - 1)) and not (v & (1 << 51)))]
+    elif k == "uchar":
+        pool = [0, 1, 2, 127, 128, 255]
+    else:
+        pool = [0, 1, -1, 2, -2, 3, 16777215, -16777215, 16777214, 65536, rng.randrange(-(1 << 24) + 1, 1 << 24)]
+    return [rng.choice(pool) for _ in range(n)]
+
+
+def fzero(k, v):
+    if k == "float":
+        return (v & 0x7fffffff) == 0
+    if k == "double":
+        return (v & ((1 << 63) - 1)) == 0
+    return v == 0
+
+
+def canon(case, impl):
+    """floating-point arithmetic forms: the compiler's plain expression is the oracle — the model only says W = P"""
+    if not case.startswith("fop."):
+        return impl
+    t = case.split()
+    form, op = t[2], t[3]
+    if form == "bin" and op not in FARITH:
+        return impl
+    if form == "un" and op == "lnot":
+        return impl
+    if impl.startswith("W:") and " P:" in impl:
+        w, pl = impl[2:].split(" P:", 1)
+        if w == pl:
+            return "W=P:" + w.split(":")[0]
+    return impl
+
+
 def operand(w, k, name, init):
     """declaration of operand `name` of wrapper kind w holding init"""
     if w == "P":
@@ -211,6 +347,15 @@ def pre_generate(ctx):
         with open(path, "w") as f:
             f.write(emit(PROGS[s:s + SHARD]))
         DRIVERS.append(dict(name="ops_%d" % sid, src=path, defines=[], ops=["op.%d" % sid]))
+    global FPROGS
+    FPROGS = fdraw_programs(prng, 1 if q else 6)
+    for s in range(0, len(FPROGS), SHARD):
+        sid = s // SHARD
+        path = os.path.join(ctx.build, "fops_%d.cpp" % sid)
+        with open(path, "w") as f:
+            f.write(femit(FPROGS[s:s + SHARD]))
+        DRIVERS.append(dict(name="fops_%d" % sid, src=path, defines=[], ops=["fop.%d" % sid]))
+    ctx.coverage["float_programs"] = len(FPROGS)
     ctx.coverage["programs"] = len(PROGS)
     ctx.coverage["exhaustive"] = True
 
@@ -248,7 +393,16 @@ def gen_cases(tier, rng):
         pass
     global UB_DROPPED
     UB_DROPPED = sum(1 for (m, s, c) in res if m == "UB")
-    return [c for c, (m, s, cl) in zip(cand, res) if m != "UB"]
+    cases = [c for c, (m, s, cl) in zip(cand, res) if m != "UB"]
+    fper = 16 if tier == "quick" else 48
+    for i, p in enumerate(FPROGS):
+        sid, local = i // SHARD, i % SHARD
+        head = "fop.%d %d %s %s %s %s %s %s" % (sid, local, p["form"], p["op"], p["wa"], p["ka"], p["wb"], p["kb"])
+        for a, b in zip(fvals(p["ka"], rng, fper), fvals(p["kb"], rng, fper)):
+            if p["op"] == "div" and fzero(p["kb"], b):
+                continue      # division by zero: not defined behaviour of the plain expression in ISO C++
+            cases.append("%s %d %d" % (head, a, b))
+    return cases
 
 
 UB_DROPPED = 0
@@ -270,5 +424,7 @@ RULE = ("generated programs: per run ~400 (quick) / ~4000 (thorough) single-eval
         "object afterwards), and the count of defined pairs and a checksum over all results compared with the Coq semantics. verif32 back end (guest long = 32 bit).")
 TRUSTED = ["model coq/Ops.v is our reading of the C++17 standard for LP64 + g++'s implementation-defined choices (modulo conversion to narrower signed types, arithmetic right shift); "
            "it is cross-checked against the compiler's plain expressions by every case", "generated C++ programs rebuilt from /repo's headers on every run"]
-ASSUMPTIONS = ["floating-point operands are not exercised", "operands of a tainted_volatile hold values representable in the sandbox type",
+ASSUMPTIONS = ["floating-point operands (float, double; mixed with int, unsigned char, long long operands of magnitude < 2^24): comparisons, &&, ||, ! are decided by the Coq model "
+               "(coq/FloatCmp.v: exact values of the bit patterns, NaN unordered); for +, -, *, /, unary -, compound assignment and ++/-- the compiler's plain expression is the oracle "
+               "(wrapped result must have the same type and bits; any NaN counts as NaN); signalling NaNs, long double and division by zero are not exercised", "operands of a tainted_volatile hold values representable in the sandbox type",
                "compound assignment onto a tainted_volatile may abort where the plain form would wrap (allowed by the property)"]
